@@ -20,6 +20,8 @@
 //!       decoy siblings the class must not match; GN: such a pattern matching only its decoys must fail
 //!   T   fake+real FS: the SAME relative include text (literal, ./x, ./x/../y, sub/x, *-, class-, ?-glob, sub/*) in 2 or 3
 //!       sibling directories d1/ d2/ d3/ holding files of the same relative names; same text along a chain
+//!   W   fake+real FS: textual form of the include line and of the file end: blanks/tabs before (and, DON'T-CARE, after)
+//!       the path, LF / CRLF, blank lines between items or none, last line of every file terminated or not
 //!   N   fake FS: an include that matches nothing (every 1-line tree x style; nested 2-line shapes x uniform style)
 //!   C   fake FS: recursive include (chain depth k, back edge to ancestor j, chain style, back-edge spelling)
 //!   X   fake FS: the same file included twice through two different spellings (sequence is DON'T-CARE)
@@ -46,11 +48,11 @@ pub const DEF: CheckDef = CheckDef {
     id: "C11",
     run,
     technique: "bounded-exhaustive enumeration of include trees: one order-sensitive 6-entry ledger cut at every subset of its 5 entry boundaries and hung into every include tree (own entries may surround include lines; one include line may glob several sibling files) within depth/line bounds x every assignment of 10 path styles to the include lines, plus 8 further styles for the remaining glob metacharacters ([0-9], [ab], [!x], ? in the same and in a sub-directory); the real Loader (FakeFileSystem and real file system) and the real report/CLI code run on every tree and are compared with the unsplit ledger",
-    rule: "case = (tree shape, path style per include line[, file system, creation order, root spelling]). quick: depth <= 2 and <= 2 include lines x all style assignments, plus all 48 097 shapes of depth <= 2 x 4 uniform style families; thorough: depth <= 3 and <= 3 lines x all style assignments, plus all 383 084 shapes of depth <= 3 x 10 uniform style families. Styles: same dir, sub-dir, ../, ./x/../y, absolute, glob prefix*, glob *suffix, glob sub/*.ledger, glob ../*suffix, glob over several directories */m.dat; family G adds rN_[0-9].dat, sN_[ab..].dat, [!x]_nN.dat, ?_qN.dat (same dir and mN/ sub-dir, the first three without any * or ?) with siblings the class must not match: quick every 1-line tree x 8 and every 2-line shape x 8 uniform, thorough every <=2-line shape x every assignment over all 18 styles using one of them; a dot-file (dot-directory) holding an unbalanced transaction sits next to every glob; FakeFileSystem returns glob matches reverse-sorted; on the real FS files are created in two scrambled orders. family T: every twin shape (root -> 2 or 3 year files d1/year.dat.. by literal lines or one glob d*/year.dat, each with own entries around ONE include line over leaf files) x 9 include texts that are IDENTICAL in every directory (part.dat, ./part.dat, ./x/../part.dat, sub/part.dat, *_p.dat, p_[0-9].dat, ?_q.dat, sub/*.ledger, sub/p_[0-9].dat), 3 538 shapes / 23 954 trees on the fake FS, 1 720 (thorough 23 954) on the real FS, plus chains whose every line says the same sub-directory text. Further families: include matching nothing (must fail), recursive include (must fail, not crash), identical include twice and diamond (must not be reported as recursive), two spellings of one file (DON'T-CARE). states = trees executed, transitions = loader/report/CLI runs compared with the unsplit ledger",
+    rule: "case = (tree shape, path style per include line[, file system, creation order, root spelling]). quick: depth <= 2 and <= 2 include lines x all style assignments, plus all 48 097 shapes of depth <= 2 x 4 uniform style families; thorough: depth <= 3 and <= 3 lines x all style assignments, plus all 383 084 shapes of depth <= 3 x 10 uniform style families. Styles: same dir, sub-dir, ../, ./x/../y, absolute, glob prefix*, glob *suffix, glob sub/*.ledger, glob ../*suffix, glob over several directories */m.dat; family G adds rN_[0-9].dat, sN_[ab..].dat, [!x]_nN.dat, ?_qN.dat (same dir and mN/ sub-dir, the first three without any * or ?) with siblings the class must not match: quick every 1-line tree x 8 and every 2-line shape x 8 uniform, thorough every <=2-line shape x every assignment over all 18 styles using one of them; a dot-file (dot-directory) holding an unbalanced transaction sits next to every glob; FakeFileSystem returns glob matches reverse-sorted; on the real FS files are created in two scrambled orders. family T: every twin shape (root -> 2 or 3 year files d1/year.dat.. by literal lines or one glob d*/year.dat, each with own entries around ONE include line over leaf files) x 9 include texts that are IDENTICAL in every directory (part.dat, ./part.dat, ./x/../part.dat, sub/part.dat, *_p.dat, p_[0-9].dat, ?_q.dat, sub/*.ledger, sub/p_[0-9].dat), 3 538 shapes / 23 954 trees on the fake FS, 1 720 (thorough 23 954) on the real FS, plus chains whose every line says the same sub-directory text. family W: every 1-line tree x 3 styles x 125 textual forms and every 2-line shape x 17 forms ({blank, blanks, tab before the path} x {LF, CRLF on include lines, CRLF everywhere} x {blank line after every item, none} x {file end as generated, one line end, last line unterminated}; blanks after the path are DON'T-CARE), 76 059 trees on the fake FS and 1 080 on the real FS. Further families: include matching nothing (must fail), recursive include (must fail, not crash), identical include twice and diamond (must not be reported as recursive), two spellings of one file (DON'T-CARE). states = trees executed, transitions = loader/report/CLI runs compared with the unsplit ledger",
     assumptions: &[
         "entry identity = PartialEq of syntax::plain::LedgerEntry against the parsed unsplit ledger; report identity = bytes of the balance/register lines (same formatting code as cli BalanceCmd/RegisterCmd on FakeFileSystem, the real CLI in-process on the real file system)",
         "file names inside one glob are single-digit keys, so every reasonable notion of 'sorted path order' agrees; component-wise vs byte-wise order of multi-directory matches, case folding, symlinks and non-UTF-8 names are not exercised",
-        "path attribution is compared after normalisation (lexical on the fake FS, fs::canonicalize on the real FS); include lines are always separated from entries by a blank line",
+        "path attribution is compared after normalisation (lexical on the fake FS, fs::canonicalize on the real FS); outside family W include lines are `include <path>` + LF + blank line; a line counts as terminated by LF, CRLF or the end of the file (okane's uniform line_ending_or_eof convention); blanks after the include path are DON'T-CARE (doc/syntax.md makes them part of the path, okane trims them)",
     ],
     shards: 64,
     hang_s: 60,
@@ -356,7 +358,62 @@ struct Laid {
     nomatch: Option<usize>,
 }
 
+/// Textual form of the generated files (family W). The default is what every other family uses: one blank between
+/// `include` and the path, LF, a blank line after every item.
+#[derive(Clone, Copy, Debug, PartialEq, Eq)]
+struct Fmt {
+    /// between `include` and the path
+    sep: &'static str,
+    /// after the path (DON'T-CARE unless empty: the documented grammar makes it part of the path, okane trims it)
+    trail: &'static str,
+    /// 0 = LF everywhere, 1 = include lines end in CRLF, 2 = CRLF everywhere
+    eol: u8,
+    /// blank line after every item
+    gap: bool,
+    /// end of every file: 0 = as generated, 1 = exactly one line end, 2 = the last line is not terminated at all
+    eof: u8,
+}
+const FMT_DEFAULT: Fmt = Fmt { sep: " ", trail: "", eol: 0, gap: true, eof: 0 };
+
+impl Fmt {
+    fn entry(&self, i: usize) -> &'static str {
+        let e = ENTRIES[i];
+        if self.gap {
+            e
+        } else {
+            &e[..e.len() - 1]
+        }
+    }
+    fn include_line(&self, text: &str) -> String {
+        let nl = if self.eol == 1 { "\r\n" } else { "\n" };
+        format!("include{}{}{}{}{}", self.sep, text, self.trail, nl, if self.gap { nl } else { "" })
+    }
+    fn finish(&self, content: String) -> String {
+        let mut c = if self.eol == 2 { content.replace('\n', "\r\n") } else { content };
+        if self.eof > 0 {
+            let keep = c.trim_end_matches(['\n', '\r']).len();
+            let crlf = self.eol == 2 || (self.eol == 1 && c[keep..].starts_with('\r'));
+            c.truncate(keep);
+            if self.eof == 1 {
+                c.push_str(if crlf { "\r\n" } else { "\n" });
+            }
+        }
+        c
+    }
+    fn describe(&self) -> String {
+        format!(
+            "sep {:?} trail {:?} line-ends {} {} file-end {}",
+            self.sep,
+            self.trail,
+            ["LF", "CRLF-on-include-lines", "CRLF"][self.eol as usize],
+            if self.gap { "blank-line-between-items" } else { "no-blank-lines" },
+            ["as-generated", "one-line-end", "unterminated-last-line"][self.eof as usize]
+        )
+    }
+}
+
 struct Builder<'a> {
+    fmt: Fmt,
     base: &'a str,
     styles: &'a [Style],
     next_lid: usize,
@@ -379,7 +436,7 @@ impl<'a> Builder<'a> {
         for it in &node.items {
             match it {
                 Item::E(i) => {
-                    content.push_str(ENTRIES[*i]);
+                    content.push_str(self.fmt.entry(*i));
                     if !self.dead {
                         self.l.expect.push((fidx, *i));
                     }
@@ -482,7 +539,7 @@ impl<'a> Builder<'a> {
                         }
                         TwinLit | TwinGlob => panic!("harness bug: family-T label used as a layout style"),
                     };
-                    content.push_str(&format!("include {}\n\n", text));
+                    content.push_str(&self.fmt.include_line(&text));
                     for h in &hidden {
                         self.l.hidden.insert(h.clone(), HIDDEN.to_string());
                     }
@@ -508,7 +565,7 @@ impl<'a> Builder<'a> {
                 }
             }
         }
-        self.l.files[fidx].1 = content;
+        self.l.files[fidx].1 = self.fmt.finish(content);
         fidx
     }
 }
@@ -518,10 +575,15 @@ fn root_dir(base: &str) -> String {
 }
 
 fn layout(shape: &str, styles: &[Style], base: &str, nomatch: Option<usize>) -> Laid {
+    layout_fmt(shape, styles, base, nomatch, FMT_DEFAULT)
+}
+
+fn layout_fmt(shape: &str, styles: &[Style], base: &str, nomatch: Option<usize>, fmt: Fmt) -> Laid {
     let node = parse_shape(shape);
     let rd = root_dir(base);
     let root = format!("{}/main.ledger", rd);
     let mut b = Builder {
+        fmt,
         base,
         styles,
         next_lid: 0,
@@ -569,7 +631,7 @@ struct Seen {
     include_delivered: bool,
 }
 
-fn collect<F: load::FileSystem>(known: &[syntax::plain::LedgerEntry<'static>], loader: &load::Loader<F>) -> (Seen, Result<(), load::LoadError>) {
+fn collect<F: load::FileSystem>(known: &Known, loader: &load::Loader<F>) -> (Seen, Result<(), load::LoadError>) {
     let mut seen = Seen::default();
     let r = loader.load(|path: &Path, _pctx: &parse::ParsedContext<'_>, entry: &syntax::plain::LedgerEntry<'_>| -> Result<(), load::LoadError> {
         // LedgerEntry is invariant in its lifetime (GAT in Decoration), so `==` against the 'static reference entries
@@ -579,8 +641,8 @@ fn collect<F: load::FileSystem>(known: &[syntax::plain::LedgerEntry<'static>], l
             seen.include_delivered = true;
             INC
         } else {
-            match known.iter().position(|k| k == e) {
-                Some(i) => i as u8,
+            match known.entries.iter().position(|k| k == e) {
+                Some(i) => known.codes[i],
                 None => {
                     seen.other.push(format!("{:?}", entry));
                     OTHER
@@ -680,9 +742,18 @@ fn cli_outputs(root: &str) -> Vec<String> {
 // ------------------------------------------------------------------------------------------
 // Reference + oracle
 
+/// The entries the callback may legitimately (or illegitimately) see, with the code they are recorded as. The first 8
+/// are the 6 ledger entries, the decoy entry (HID) and the shared-file entry (SHR); further ones are the same ledger
+/// entries as parsed from other textual forms (CRLF, unterminated last line) when those parse to a different value.
+struct Known {
+    entries: Vec<syntax::plain::LedgerEntry<'static>>,
+    codes: Vec<u8>,
+}
+
 struct Baseline {
-    /// the 6 entries followed by the dot-file's entry (index HID)
-    known: Vec<syntax::plain::LedgerEntry<'static>>,
+    known: Known,
+    /// the ledger with CRLF line ends loads to the same entries and reports
+    crlf_ok: bool,
     balance: String,
     register: String,
 }
@@ -704,6 +775,32 @@ fn baseline() -> Baseline {
             assert!(known[i] != known[j], "harness bug: entries {} and {} are indistinguishable", i, j);
         }
     }
+    let codes: Vec<u8> = (0..known.len() as u8).collect();
+    let mut known = Known { entries: known, codes };
+    // other textual forms of the same entries: every entry alone without its final new-lines, with one new-line, with CRLF
+    let mut crlf_parses = true;
+    for (i, e) in ENTRIES.iter().enumerate() {
+        let t = e.trim_end_matches('\n');
+        for form in [t.to_string(), format!("{}\n", t), t.replace('\n', "\r\n"), format!("{}\r\n", t.replace('\n', "\r\n")), e.replace('\n', "\r\n")] {
+            let is_crlf = form.contains('\r');
+            let parsed: Result<Vec<_>, _> = parse::parse_ledger::<syntax::plain::Ident>(&parse::ParseOptions::default(), Box::leak(form.into_boxed_str())).map(|r| r.map(|(_c, e)| e)).collect();
+            match parsed {
+                Ok(v) if v.len() == 1 => {
+                    if !known.entries.contains(&v[0]) {
+                        known.entries.push(v.into_iter().next().unwrap());
+                        known.codes.push(i as u8);
+                    }
+                }
+                _ => {
+                    if is_crlf {
+                        crlf_parses = false;
+                    } else {
+                        panic!("harness bug: entry {} without its final new-line does not parse as one entry", i);
+                    }
+                }
+            }
+        }
+    }
     let files = [("/v/c11/main.ledger", text.as_str())];
     let (seen, r) = collect(&known, &oka::fake_loader(&files, "/v/c11/main.ledger"));
     if r.is_err() || seen.entries.iter().map(|e| e.1).collect::<Vec<u8>>() != vec![0, 1, 2, 3, 4, 5] {
@@ -718,7 +815,11 @@ fn baseline() -> Baseline {
     if fake_reports(&hf, "/v/c11/h.ledger").is_ok() {
         panic!("harness bug: the dot-file content is accepted");
     }
-    Baseline { known, balance, register }
+    let crlf_text = text.replace('\n', "\r\n");
+    let cf = [("/v/c11/main.ledger", crlf_text.as_str())];
+    let (cseen, cr) = collect(&known, &oka::fake_loader(&cf, "/v/c11/main.ledger"));
+    let crlf_ok = crlf_parses && cr.is_ok() && cseen.entries.iter().map(|e| e.1).collect::<Vec<u8>>() == vec![0, 1, 2, 3, 4, 5] && fake_reports(&cf, "/v/c11/main.ledger") == Ok((balance.clone(), register.clone()));
+    Baseline { known, crlf_ok, balance, register }
 }
 
 /// how many of the 5 adjacent swaps of the ledger change the reports (or make them fail)
@@ -859,6 +960,58 @@ fn judge_fake_split(b: &Baseline, l: &Laid, depth: usize, spelling: usize) -> Ou
             Outcome::pass(format!("same/fake/{}", tree_class(l, depth)))
         }
     }
+}
+
+/// Family W: the verdict of the ordinary split oracle, re-labelled with the textual form. Forms with blanks after the
+/// include path are DON'T-CARE (the documented grammar `path ::= no-new-line+` makes them part of the path, okane trims
+/// them); so is a CRLF form if okane does not read the unsplit ledger in CRLF to the same entries and reports.
+fn relabel_fmt(b: &Baseline, fmt: &Fmt, o: Outcome) -> Outcome {
+    use crate::fw::Verdict;
+    let key = format!(
+        "{}+{}+{}",
+        ["LF", "CRLF-on-include-lines", "CRLF"][fmt.eol as usize],
+        ["file-end-as-generated", "one-line-end", "unterminated-last-line"][fmt.eof as usize],
+        if fmt.gap { "blank-lines" } else { "no-blank-lines" }
+    );
+    let verdict_word = match &o.verdict {
+        Verdict::Pass => "same".to_string(),
+        Verdict::DontCare => "dont-care".to_string(),
+        Verdict::Violation { sig, .. } => format!("differs:{}", sig.split('/').next().unwrap_or("")),
+    };
+    if !fmt.trail.is_empty() {
+        return Outcome::dont_care(format!("text-form/blanks-after-include-path/{}", verdict_word));
+    }
+    if fmt.eol == 2 && !b.crlf_ok {
+        return Outcome::dont_care(format!("text-form/CRLF-ledger-not-read-like-LF/{}", verdict_word));
+    }
+    match o.verdict {
+        Verdict::Pass => Outcome::pass(format!("text-form/{}/same", key.rsplitn(2, '+').nth(1).unwrap_or(&key))),
+        Verdict::DontCare => o,
+        Verdict::Violation { sig, detail } => {
+            // a parse error does not depend on the path style: keep "<clause>/<fs>/Parse" only
+            let parts: Vec<&str> = sig.split('/').collect();
+            let base = if parts.len() > 3 && parts[2] == "Parse" { parts[..3].join("/") } else { sig.clone() };
+            Outcome::violation(format!("{}/text-form/{}", base, key.rsplitn(2, '+').nth(1).unwrap_or(&key)), detail)
+        }
+    }
+}
+
+fn fmt_variants(full: bool) -> Vec<Fmt> {
+    let deco: &[(&'static str, &'static str)] = if full { &[(" ", ""), ("  ", ""), ("\t", ""), (" \t ", ""), (" ", " "), (" ", "\t"), (" ", "  \t")] } else { &[(" ", "")] };
+    let mut v = vec![];
+    for (sep, trail) in deco {
+        for eol in 0..3u8 {
+            for gap in [true, false] {
+                for eof in 0..3u8 {
+                    let f = Fmt { sep, trail, eol, gap, eof };
+                    if f != FMT_DEFAULT {
+                        v.push(f);
+                    }
+                }
+            }
+        }
+    }
+    v
 }
 
 fn judge_fake_nomatch(b: &Baseline, l: &Laid) -> Outcome {
@@ -1506,6 +1659,39 @@ fn run_inner(ctx: &mut Ctx) {
     ctx.fact("family_T_trees", n_t);
     fake_tally.emit(ctx, "fake");
 
+    // ---- W: textual form of the include line and of the file end (fake FS) ----
+    //  W1: every 1-line tree x 3 styles (literal, sub/*.ledger, class glob) x 125 forms:
+    //      {blank, 2 blanks, tab, blank-tab-blank before the path; blank / tab / blanks+tab after it (DON'T-CARE)} x
+    //      {LF, CRLF on include lines, CRLF everywhere} x {blank line after every item, none} x
+    //      {file end as generated, exactly one line end, last line unterminated}
+    //  W2: every 2-line shape x literal style (prefix glob for groups) x the 17 forms without blanks variation
+    ctx.fact("crlf_ledger_read_like_lf", b.crlf_ok as u64);
+    let mut n_w = 0u64;
+    let full_forms = fmt_variants(true);
+    let plain_forms = fmt_variants(false);
+    for (shape, lines) in all_shapes.iter().filter(|s| s.1 == 1 || s.1 == 2) {
+        let depth = shape_depth(shape);
+        let multi = line_multi(shape);
+        let style_sets: Vec<Vec<Style>> = if *lines == 1 {
+            [if multi[0] { GlobPrefix } else { Same }, GlobSub, ClsRange].iter().map(|s| vec![*s]).collect()
+        } else {
+            vec![uniform_styles(&multi, Same)]
+        };
+        let forms = if *lines == 1 { &full_forms } else { &plain_forms };
+        for st in &style_sets {
+            for fmt in forms.iter() {
+                n_w += 1;
+                if !ctx.next_is_mine() {
+                    ctx.skip_cases(1);
+                    continue;
+                }
+                let l = layout_fmt(shape, st, FAKE_BASE, None, *fmt);
+                ctx.case(|| format!("[W fake FS] shape {} styles [{}] form: {}\n{}", shape, style_names(st), fmt.describe(), render(&l)), || relabel_fmt(&b, fmt, judge_fake_split(&b, &l, depth, 0)));
+            }
+        }
+    }
+    ctx.fact("family_W_trees", n_w);
+
     // ---- N: include that matches nothing (fake FS) ----
     let mut n_n = 0u64;
     for (shape, lines) in all_shapes.iter().filter(|s| s.1 >= 1 && s.1 <= 2) {
@@ -1705,6 +1891,27 @@ fn run_inner(ctx: &mut Ctx) {
         }
     }
     let _ = (grp3, grp3_scrambled);
+    // RW: textual forms on the real FS: every 1-line tree x literal style (prefix glob for groups) x
+    // {LF, CRLF on include lines, CRLF} x {as generated, one line end, unterminated} without blank lines between items
+    let mut n_rw = 0u64;
+    for (shape, _) in all_shapes.iter().filter(|s| s.1 == 1) {
+        let depth = shape_depth(shape);
+        let multi = line_multi(shape);
+        let st = uniform_styles(&multi, Same);
+        for fmt in plain_forms.iter().filter(|f| !f.gap) {
+            n_rw += 1;
+            if !ctx.next_is_mine() {
+                ctx.skip_cases(1);
+                continue;
+            }
+            let l = layout_fmt(shape, &st, &real_base, None, *fmt);
+            ctx.case(
+                || format!("[RW real FS] shape {} styles [{}] form: {}\n{}", shape, style_names(&st), fmt.describe(), render(&l)).replace(&env.scratch, "<scratch>"),
+                || relabel_fmt(&b, fmt, judge_real_split(&env, &b, &l, depth, 0, 0)),
+            );
+        }
+    }
+    ctx.fact("family_RW_cases", n_rw);
     // RT: family T on the real FS (loader + CLI), creation order 0; quick: only the twin shapes in which all entries
     // sit in the leaf files (root and year files hold include lines only), thorough: all twin shapes
     let mut n_rt = 0u64;
